@@ -133,14 +133,17 @@ End Sched.
 
 (* ============================================================================ 2. values, tasks *)
 (* Python values that can be static task inputs / task results, as far as dask distinguishes them:
-   strings (compared with graph keys), callables, tuples, lists, everything else (ints, None,
-   dicts, models, the context object: never interpreted by dask) *)
+   strings (compared with graph keys), callables, tuples, lists, dicts (never interpreted by the threaded
+   scheduler, but inspected by as_dask_dict), dask literal wrappers, everything else (ints, None, models,
+   the context object) *)
 Inductive sval : Type :=
 | SStr (s : positive)
 | SAtom (a : positive)
 | SFun (f : positive)
 | STuple (l : list sval)
-| SList (l : list sval).
+| SList (l : list sval)
+| SDict (ks vs : list sval)     (* a dict: keys and values in item order *)
+| SLit (v : sval).              (* a dask.core.literal(v) object: callable, literal(v)() = v *)
 
 Fixpoint sval_eqb (a b : sval) : bool :=
   let fix go (l m : list sval) : bool :=
@@ -155,8 +158,13 @@ Fixpoint sval_eqb (a b : sval) : bool :=
   | SFun x, SFun y => Pos.eqb x y
   | STuple l, STuple m => go l m
   | SList l, SList m => go l m
+  | SDict k1 v1, SDict k2 v2 => go k1 k2 && go v1 v2
+  | SLit x, SLit y => sval_eqb x y
   | _, _ => false
   end.
+
+(* callable(x) *)
+Definition is_callable (a : sval) : bool := match a with SFun _ | SLit _ => true | _ => false end.
 
 (* Task objects are hashed by identity.  [tid] names the object the user created (Task.replace keeps
    the name), [tuid] is the identity of the object itself: the user's tasks have tuid = tid, every
@@ -235,13 +243,33 @@ Definition dsk := list (positive * sval).
 Definition key_of (ids : task -> positive) (sink : task) (t : task) : positive :=
   if task_eqb t sink then results else ids t.
 
+(* the local function `interpreted(value)` of as_dask_dict (/repo d3e6e19): "dask would not pass this static
+   input literally": a str equal to a key, a tuple with a callable head, recursively inside tuples, lists and
+   dict values *)
+Fixpoint interpreted (keys : list positive) (a : sval) : bool :=
+  let fix any (l : list sval) : bool :=
+      match l with [] => false | x :: tl => interpreted keys x || any tl end in
+  match a with
+  | SStr s => memp s keys
+  | SAtom _ | SFun _ | SLit _ => false
+  | STuple l => (match l with x :: _ => is_callable x | [] => false end) || any l
+  | SList l => any l
+  | SDict _ vs => any vs
+  end.
+
+(* (literal(inp),) if interpreted(inp) else inp *)
+Definition quote (keys : list positive) (a : sval) : sval :=
+  if interpreted keys a then STuple [SLit a] else a.
+
 (* [ids] stands for f'{task.name}-{uuid.uuid4()}'.  Entries in node order (nx.dfs_tree(G) without a
    source starts by add_nodes_from(G)).  None = ValueError("Workflow can only have one output task") *)
 Definition as_dask_dict (g : tgraph) (ids : task -> positive) : option dsk :=
   match output_tasks g with
   | [o] =>
+      let keys := map (key_of ids o) (nodes g) in
       Some (map (fun t => (key_of ids o t,
-                           STuple (SFun (tfun t) :: tinputs t ++ map (fun p => SStr (key_of ids o p)) (pred g t))))
+                           STuple (SFun (tfun t) :: map (quote keys) (tinputs t)
+                                   ++ map (fun p => SStr (key_of ids o p)) (pred g t))))
                 (nodes g))
   | _ => None
   end.
@@ -258,7 +286,7 @@ Section Dask.
        (callable, args...)       -> callable(evaluated args...)        [Task]
        str in all_keys           -> the value of that key              [Alias]
        tuple / list              -> same container of evaluated items  [_identity_cast / rebuilt]
-       anything else             -> itself                             [literal] *)
+       anything else (also dict) -> itself                             [literal] *)
   Fixpoint eval_arg (a : sval) : sval * list event :=
     let fix eval_list (l : list sval) : list sval * list event :=
         match l with
@@ -268,10 +296,11 @@ Section Dask.
         end in
     match a with
     | SStr s => if memp s keys then (c s, []) else (a, [])
-    | SAtom _ | SFun _ => (a, [])
+    | SAtom _ | SFun _ | SLit _ | SDict _ _ => (a, [])
     | STuple l =>
         match l with
         | SFun f :: rest => let (vs, ev) := eval_list rest in (apply f vs, ev ++ [(f, vs)])
+        | SLit v :: rest => let (vs, ev) := eval_list rest in (v, ev)       (* literal(v)(): as_dask_dict only makes (literal(v),) *)
         | _ => let (vs, ev) := eval_list l in (STuple vs, ev)
         end
     | SList l => let (vs, ev) := eval_list l in (SList vs, ev)
@@ -286,19 +315,19 @@ Section Dask.
         end in
     match a with
     | SStr s => if memp s keys then [s] else []
-    | SAtom _ | SFun _ => []
+    | SAtom _ | SFun _ | SLit _ | SDict _ _ => []
     | STuple l => deps_list l
     | SList l => deps_list l
     end.
 End Dask.
 
-(* what makes dask read a static input as something else than itself *)
+(* what makes the threaded scheduler read a value as something else than itself *)
 Fixpoint has_key_string (keys : list positive) (a : sval) : bool :=
   let fix any (l : list sval) : bool :=
       match l with [] => false | x :: tl => has_key_string keys x || any tl end in
   match a with
   | SStr s => memp s keys
-  | SAtom _ | SFun _ => false
+  | SAtom _ | SFun _ | SLit _ | SDict _ _ => false
   | STuple l => any l
   | SList l => any l
   end.
@@ -307,8 +336,8 @@ Fixpoint has_call_tuple (a : sval) : bool :=
   let fix any (l : list sval) : bool :=
       match l with [] => false | x :: tl => has_call_tuple x || any tl end in
   match a with
-  | SStr _ | SAtom _ | SFun _ => false
-  | STuple l => match l with SFun _ :: _ => true | _ => any l end
+  | SStr _ | SAtom _ | SFun _ | SLit _ | SDict _ _ => false
+  | STuple l => match l with SFun _ :: _ | SLit _ :: _ => true | _ => any l end
   | SList l => any l
   end.
 
@@ -410,7 +439,8 @@ Definition wf_keys (g : tgraph) (ids : task -> positive) : list positive :=
 (* uuid keys are pairwise different and none of them is the string 'results' *)
 Definition g_keys_fresh (g : tgraph) (ids : task -> positive) : bool := nodupp (wf_keys g ids).
 
-(* no static input contains a string that is a key of the graph *)
+(* (informational since /repo d3e6e19: such input is quoted by as_dask_dict) no static input contains a string
+   that is a key of the graph *)
 Definition g_static_nokey (g : tgraph) (ids : task -> positive) : bool :=
   forallb (fun t => forallb (fun a => negb (has_key_string (wf_keys g ids) a)) (tinputs t)) (nodes g).
 (* no static input contains a tuple whose first element is callable *)
